@@ -651,7 +651,9 @@ class FieldedOrderedHashReader(HashReader):
     def range_for_term(self, fieldname, btext):
         start, ixpos, ixsize, code = self.fieldmap[fieldname]
         for datapos, datalen in self.ranges_for_key(btext):
-            if start < datapos < ixpos:
+            # The field's pairs lie in [start, ixpos); the value of its last
+            # pair may be empty, in which case datapos == ixpos
+            if start < datapos <= ixpos:
                 return datapos, datalen
         raise KeyError((fieldname, btext))
 
